@@ -6,7 +6,7 @@ VERIF = os.path.dirname(os.path.dirname(os.path.abspath(__file__)))
 
 
 def _reexec():
-    want = {"PYTHONHASHSEED": "0", "TZ": "UTC", "LC_ALL": "C.UTF-8",
+    want = {"PYTHONHASHSEED": os.environ.get("VERIF_HASHSEED", "0"), "TZ": "UTC", "LC_ALL": "C.UTF-8",
             "PYTHONDONTWRITEBYTECODE": "1", "PYTHONWARNINGS": "ignore"}
     if os.environ.get("VERIF_NO_REEXEC") == "1" and all(
             os.environ.get(k) == v for k, v in want.items()):
@@ -27,6 +27,9 @@ def main():
         print(__doc__)
         return 2
     name = args[0]
+    if name.startswith("selftest"):
+        from simkit import selftest
+        return selftest.main(name, args[1:])
     tier = os.environ.get("VERIF_TIER", "") or "quick"
     replay = None
     i = 1
